@@ -12,7 +12,8 @@ def CHOOSE(*args):
     if (len(args) < 2):
         return error.NOT_AVAILABLE
 
-    index = utils.parse_integer(args[0])
+    # a one-cell range or one-item array given as the index is that value (as for the operators)
+    index = utils.parse_integer(utils.single(args[0]))
     if isinstance(index, error.XLError):
         return index
     if (index < 1 or index > 254):
@@ -44,6 +45,9 @@ def fold_case(text):
 @dispatcher.register_for('MATCH')
 def MATCH(lookup_value, lookup_array, match_type=1):
     lookup_array = utils.as_lists(lookup_array)
+    # a one-cell range or one-item array given as the lookup value or match type is that value
+    lookup_value = utils.single(lookup_value)
+    match_type = utils.single(match_type)
     if not lookup_value and not lookup_array:
         return error.NOT_AVAILABLE
 
@@ -99,6 +103,8 @@ def MATCH(lookup_value, lookup_array, match_type=1):
 
 @dispatcher.register_for('INDEX')
 def INDEX(arr, row_num=DEFAULT, column_num=DEFAULT, area_num=DEFAULT):
+    row_num = utils.single(row_num)
+    column_num = utils.single(column_num)
     if row_num is None:
         row_num = DEFAULT
     if column_num is None:
